@@ -1,1 +1,13 @@
 //! Verification hooks: metadata (cargo feature `mmtk_verif`; add-only wrappers).
+
+use crate::util::metadata::side_metadata::SideMetadataSpec;
+
+/// Run `SideMetadataSanity::verify_metadata_context` on a fresh sanity checker. Panics (as the
+/// real plan creation does) when the context is rejected.
+pub fn sanity_verify_context(global: Vec<SideMetadataSpec>, local: Vec<SideMetadataSpec>) {
+    use crate::util::metadata::side_metadata::{SideMetadataContext, SideMetadataSanity};
+    crate::util::metadata::side_metadata::verif_hooks::sanity_clear_poison();
+    let ctx = SideMetadataContext { global, local };
+    let mut sanity = SideMetadataSanity::new();
+    sanity.verify_metadata_context("verif", &ctx);
+}
